@@ -1538,16 +1538,14 @@ Record StageC (s0 f0 x t : N) (st : fstate) : Prop := mkStageC {
 
 Theorem lost_stage_join s0 f0 st st' plogs nticks o :
   StageB L s0 f0 st → (∀ a, plogs a = true) → N.of_nat nticks * p_step P < p_ttl P →
-  (∀ s, is_Some (f_hist st !! s) → ∃ a, spare st a s) → o ≠ OCrash →
+  o ≠ OCrash →
   (∀ st4, pre_schedule P plogs nticks st = Some st4 → fresh_ok st4 (ESchedule o)) →
   healthy_round P plogs nticks o st = Some st' →
   ∃ b x t, o = OBatch b ∧ StageC s0 f0 x t st' ∧ f_hist st' = f_hist st ∧
     d_tick (f_db st') = d_tick (f_db st) + N.of_nat nticks * p_step P ∧ mem_tick st' s0 f0 = mem_tick st s0 f0.
 Proof.
-  intros HB Hpl Httl Hsp Hnc Hfr Hr. pose proof (sb_b _ _ _ _ HB) as HLB. pose proof HLB as (HI & HP & Hoh).
+  intros HB Hpl Httl Hnc Hfr Hr. pose proof (sb_b _ _ _ _ HB) as HLB. pose proof HLB as (HI & HP & Hoh).
   assert (Hin : inert st) by (intros a q Hq; exact (sb_pend _ _ _ _ HB a q Hq)).
-  assert (Hne : o ≠ OError).
-  { apply (round_no_error P st st' plogs nticks o HI); [|done|done|done]. intros a fh Ha. by destruct (ml_hosts _ _ _ HP a fh Ha). }
   rewrite healthy_round_pre in Hr. destruct (pre_schedule P plogs nticks st) as [st4|] eqn:Epre; [|done].
   destruct (inert_pre st plogs nticks st4 HLB Hin Hpl Epre) as
     (HX4 & Hin4 & Hcur4 & Hhi4 & Htick4 & Hsh4 & Hrec4 & Hplog4 & Hdbk4 & Hrun4 & Hkeys4 & Hdom4 & Hnoh4).
@@ -1555,11 +1553,10 @@ Proof.
   destruct (fstep P st4 (ESchedule o)) as [st5| |] eqn:E5; try done. injection Hr as <-.
   destruct HX4 as [(HI4 & HP4 & Hoh4) Hnc4].
   cbn [fstep] in E5. destruct (allowed P (ctx_of_db (f_db st4)) o) eqn:Hal; [|done].
-  destruct o as [b| |]; [|done|done]. exists b.
   set (C := ctx_of_db (f_db st4)) in *. pose proof (loopinv_ctx_wf st4 HI4) as Hwf. fold C in Hwf.
   set (t := d_tick (f_db st)) in *.
   destruct (sb_behind _ _ _ _ HB) as (e0 & hs0 & x & tt & c0 & Hh0 & Hxn & Hc0 & Hcc0 & Hsz0 & H30 & Hf0in & Hxnd).
-  destruct e0 as [v M]. cbn [fst snd] in *. exists x, tt. split; [done|].
+  destruct e0 as [v M]. cbn [fst snd] in *.
   set (h0 := ((v + 1, <[x := tt]> M) : hentry) :: (v, M) :: hs0) in *.
   assert (Hbeh : behind h0 c0 v M (<[x := tt]> M) x hs0) by (split; [done|]; split; [done|]; left; split; [done|by exists tt]).
   destruct (ml_behind _ _ _ HP s0 h0 c0 v M _ x hs0 Hh0 Hc0 Hbeh) as (_ & Hxnorun & _).
@@ -1650,6 +1647,18 @@ Proof.
   assert (Hnxwait : nx ∈ sr_wait P C c4).
   { apply elem_sr_wait. split; [apply elem_of_mvals; by exists x|]. unfold replica_waiting, replica_failed. rewrite Hnx0. cbn.
     apply negb_true_iff, N.eqb_neq. lia. }
+  assert (Hnoadd : ∀ c, c ∈ entries C → repair_action P C c ≠ AAdd).
+  { intros c Hc. destruct (lostp_entry L P Ldec st4 t c HR4 Hc) as (h & sd & Hh & Hvc & _ & _ & _ & Hfl & _ & Hcr & Hnone & _). fold C in Hfl, Hcr, Hnone.
+    destruct (sr_wait P C c) as [|nw lw] eqn:Ew; [|by rewrite (Hcr ltac:(done))].
+    destruct (sr_failed P C c) as [|nf1 l0] eqn:Ef; [by rewrite (Hnone eq_refl eq_refl)|]. exfalso.
+    destruct (Hfl nf1 ltac:(left)) as [Hlf _]. destruct (sb_single _ _ _ _ HB _ _ Hlf) as [Hs0 _].
+    rewrite Hs0 in Hvc. assert (c = c4) as -> by congruence.
+    assert (Hnxw' : nx ∈ sr_wait P C c4).
+    { apply elem_sr_wait. split; [apply elem_of_mvals; by exists x|]. unfold replica_waiting, replica_failed. rewrite Hnx0. cbn.
+      apply negb_true_iff, N.eqb_neq. first [done|lia]. }
+    rewrite Ew in Hnxw'. by apply elem_of_nil in Hnxw'. }
+  destruct o as [b| |]; [|exfalso; apply error_cause in Hal as (c & n & Hc & Ha & _); exact (Hnoadd c Hc Ha)|done].
+  exists b, x, tt. split; [done|].
   (* what the batch consists of *)
   assert (Hkinds : ∀ q, q ∈ b → is_kill q = true ∨
             (good_join (f_hist st4) (q_raft q) q ∧ q_shard q = s0 ∧ q_inst q = x ∧ q_raft q = tt)).
@@ -1761,16 +1770,14 @@ Record StageD (s0 f0 x t : N) (st : fstate) : Prop := mkStageD {
 
 Theorem lost_stage_join_started s0 f0 x tt st st' plogs nticks o :
   StageC s0 f0 x tt st → (∀ a, plogs a = true) → N.of_nat nticks * p_step P < p_ttl P →
-  (∀ s, is_Some (f_hist st !! s) → ∃ a, spare st a s) → o ≠ OCrash →
+  o ≠ OCrash →
   (∀ st4, pre_schedule P plogs nticks st = Some st4 → fresh_ok st4 (ESchedule o)) →
   healthy_round P plogs nticks o st = Some st' →
   ∃ b, o = OBatch b ∧ StageD s0 f0 x tt st' ∧ f_hist st' = f_hist st ∧
     d_tick (f_db st') = d_tick (f_db st) + N.of_nat nticks * p_step P ∧ mem_tick st' s0 f0 = mem_tick st s0 f0.
 Proof.
-  intros HB Hpl Httl Hsp Hnc Hfr Hr. pose proof (sc_b _ _ _ _ _ HB) as HLB. pose proof HLB as (HI & HP & Hoh).
+  intros HB Hpl Httl Hnc Hfr Hr. pose proof (sc_b _ _ _ _ _ HB) as HLB. pose proof HLB as (HI & HP & Hoh).
   assert (Hin : jinert s0 x st) by (intros a q Hq; exact (sc_pend _ _ _ _ _ HB a q Hq)).
-  assert (Hne : o ≠ OError).
-  { apply (round_no_error P st st' plogs nticks o HI); [|done|done|done]. intros a fh Ha. by destruct (ml_hosts _ _ _ HP a fh Ha). }
   rewrite healthy_round_pre in Hr. destruct (pre_schedule P plogs nticks st) as [st4|] eqn:Epre; [|done].
   destruct (join_pre s0 x tt st plogs nticks st4 HLB (sc_cur _ _ _ _ _ HB) Hin (sc_join _ _ _ _ _ HB) Hpl Epre) as
     (HX4 & Hin4 & Hcur4 & Hxrun4 & Hhi4 & Htick4 & Hsh4 & Hrec4 & Hplog4 & Hdbk4 & Hrun4 & Hkeys4 & Hdom4 & Hnoh4).
@@ -1778,11 +1785,10 @@ Proof.
   destruct (fstep P st4 (ESchedule o)) as [st5| |] eqn:E5; try done. injection Hr as <-.
   destruct HX4 as [(HI4 & HP4 & Hoh4) Hnc4].
   cbn [fstep] in E5. destruct (allowed P (ctx_of_db (f_db st4)) o) eqn:Hal; [|done].
-  destruct o as [b| |]; [|done|done]. exists b.
   set (C := ctx_of_db (f_db st4)) in *. pose proof (loopinv_ctx_wf st4 HI4) as Hwf. fold C in Hwf.
   set (t := d_tick (f_db st)) in *.
   destruct (sc_mem _ _ _ _ _ HB) as (v & M & hs0 & Hh0 & Hxn & Hsz0 & H30 & Hf0in).
-  destruct (sc_wait _ _ _ _ _ HB) as (c0 & n0 & Hc0 & Hn0 & Hn0t & Hn0f). split; [done|].
+  destruct (sc_wait _ _ _ _ _ HB) as (c0 & n0 & Hc0 & Hn0 & Hn0t & Hn0f).
   set (h0 := ((v + 1, <[x := tt]> M) : hentry) :: (v, M) :: hs0) in *.
   assert (Hxno : ∀ a fh, f_hosts st !! a = Some fh → runs_on fh s0 x = false).
   { intros a fh Hfh. unfold runs_on. by rewrite (sc_xnodata _ _ _ _ _ HB a fh Hfh). }
@@ -1859,6 +1865,18 @@ Proof.
     - rewrite Hnone. apply Htn. intros a fh Hfh. unfold runs_on. by rewrite (sc_nodata _ _ _ _ _ HB s0 f0 (sc_lost _ _ _ _ _ HB) a fh Hfh).
     - exfalso. specialize (Hnc0 h0 Hh0). unfold h0 in Hnc0. cbn [cur_members snd] in Hnc0.
       rewrite lookup_insert_ne in Hnc0; [destruct Hf0in; congruence|]. intros ->. destruct Hf0in; congruence. }
+  assert (Hnoadd : ∀ c, c ∈ entries C → repair_action P C c ≠ AAdd).
+  { intros c Hc. destruct (lostp_entry L P Ldec st4 t c HR4 Hc) as (h & sd & Hh & Hvc & _ & _ & _ & Hfl & _ & Hcr & Hnone & _). fold C in Hfl, Hcr, Hnone.
+    destruct (sr_wait P C c) as [|nw lw] eqn:Ew; [|by rewrite (Hcr ltac:(done))].
+    destruct (sr_failed P C c) as [|nf1 l0] eqn:Ef; [by rewrite (Hnone eq_refl eq_refl)|]. exfalso.
+    destruct (Hfl nf1 ltac:(left)) as [Hlf _]. destruct (sc_single _ _ _ _ _ HB _ _ Hlf) as [Hs0 _].
+    rewrite Hs0 in Hvc. assert (c = c4) as -> by congruence.
+    assert (Hnxw' : nx ∈ sr_wait P C c4).
+    { apply elem_sr_wait. split; [apply elem_of_mvals; by exists x|]. unfold replica_waiting, replica_failed. rewrite Hnx0. cbn.
+      apply negb_true_iff, N.eqb_neq. first [done|lia]. }
+    rewrite Ew in Hnxw'. by apply elem_of_nil in Hnxw'. }
+  destruct o as [b| |]; [|exfalso; apply error_cause in Hal as (c & n & Hc & Ha & _); exact (Hnoadd c Hc Ha)|done].
+  exists b. split; [done|].
   (* what the batch consists of *)
   assert (Hkinds : ∀ q, q ∈ b → is_kill q = true ∨
             (good_join (f_hist st4) (q_raft q) q ∧ q_shard q = s0 ∧ q_inst q = x ∧ q_raft q = tt)).
@@ -1973,17 +1991,15 @@ Record StageE (s0 f0 x t : N) (st : fstate) : Prop := mkStageE {
 
 Theorem lost_stage_delete s0 f0 x tt st st' plogs nticks o :
   StageD s0 f0 x tt st → (∀ a, plogs a = true) → N.of_nat nticks * p_step P < p_ttl P →
-  (∀ s, is_Some (f_hist st !! s) → ∃ a, spare st a s) → o ≠ OCrash →
+  o ≠ OCrash →
   (∀ st4, pre_schedule P plogs nticks st = Some st4 → fresh_ok st4 (ESchedule o)) →
   p_ttl P < d_tick (f_db st) - mem_tick st s0 f0 →
   healthy_round P plogs nticks o st = Some st' →
   ∃ b, o = OBatch b ∧ StageE s0 f0 x tt st' ∧ f_hist st' = f_hist st ∧
     d_tick (f_db st') = d_tick (f_db st) + N.of_nat nticks * p_step P.
 Proof.
-  intros HB Hpl Httl Hsp Hnc Hfr Hover Hr. pose proof (sd_b _ _ _ _ _ HB) as HLB. pose proof HLB as (HI & HP & Hoh).
+  intros HB Hpl Httl Hnc Hfr Hover Hr. pose proof (sd_b _ _ _ _ _ HB) as HLB. pose proof HLB as (HI & HP & Hoh).
   assert (Hin : jinert s0 x st) by (intros a q Hq; exact (sd_pend _ _ _ _ _ HB a q Hq)).
-  assert (Hne : o ≠ OError).
-  { apply (round_no_error P st st' plogs nticks o HI); [|done|done|done]. intros a fh Ha. by destruct (ml_hosts _ _ _ HP a fh Ha). }
   rewrite healthy_round_pre in Hr. destruct (pre_schedule P plogs nticks st) as [st4|] eqn:Epre; [|done].
   destruct (jinert_pre s0 x st plogs nticks st4 HLB (sd_cur _ _ _ _ _ HB) Hin Hpl Epre) as
     (HX4 & Hin4 & Hcur4 & Hhi4 & Htick4 & Hsh4 & Hrec4 & Hplog4 & Hdbk4 & Hrun4 & Hkeys4 & Hdom4 & Hnoh4).
@@ -1991,11 +2007,10 @@ Proof.
   destruct (fstep P st4 (ESchedule o)) as [st5| |] eqn:E5; try done. injection Hr as <-.
   destruct HX4 as [(HI4 & HP4 & Hoh4) Hnc4].
   cbn [fstep] in E5. destruct (allowed P (ctx_of_db (f_db st4)) o) eqn:Hal; [|done].
-  destruct o as [b| |]; [|done|done]. exists b.
   set (C := ctx_of_db (f_db st4)) in *. pose proof (loopinv_ctx_wf st4 HI4) as Hwf. fold C in Hwf.
   set (t := d_tick (f_db st)) in *.
   destruct (sd_mem _ _ _ _ _ HB) as (v & M & hs0 & Hh0 & Hxn & Hsz0 & H30 & Hf0in).
-  destruct (sd_wait _ _ _ _ _ HB) as (c0 & n0 & Hc0 & Hn0 & Hn0t & Hn0f). split; [done|].
+  destruct (sd_wait _ _ _ _ _ HB) as (c0 & n0 & Hc0 & Hn0 & Hn0t & Hn0f).
   set (h0 := ((v + 1, <[x := tt]> M) : hentry) :: (v, M) :: hs0) in *.
   pose proof (sd_xrun _ _ _ _ _ HB) as Hxr. apply running_runs_on in Hxr as (fhx & Hfhx & Hrox).
   assert (Hpos : 0 < t) by apply (ml_time _ _ _ HP).
@@ -2075,6 +2090,13 @@ Proof.
     rewrite Hid4, <- (map_size_fmap r_addr), HM4. unfold h0. cbn [cur_members snd]. rewrite map_size_insert_None by done.
     unfold shard_size. rewrite Hsh4. unfold shard_size in Hsz0. lia. }
   destruct Hact4 as [Hhr4 Hact4].
+  assert (Hnoadd : ∀ c, c ∈ entries C → repair_action P C c ≠ AAdd).
+  { intros c Hc. destruct (lostp_entry L P Ldec st4 t c HR4 Hc) as (h & sd & Hh & Hvc & _ & _ & _ & Hfl & _ & _ & Hnone & _). fold C in Hfl, Hnone.
+    destruct (sr_failed P C c) as [|nf1 l0] eqn:Ef; [by rewrite (Hnone (Hnw c Hc) eq_refl)|].
+    destruct (Hfl nf1 ltac:(left)) as [Hlf _]. destruct (sd_single _ _ _ _ _ HB _ _ Hlf) as [Hs0 _].
+    rewrite Hs0 in Hvc. assert (c = c4) as -> by congruence. by rewrite Hact4. }
+  destruct o as [b| |]; [|exfalso; apply error_cause in Hal as (c & n & Hc & Ha & _); exact (Hnoadd c Hc Ha)|done].
+  exists b. split; [done|].
   (* what the batch consists of *)
   assert (Hkinds : ∀ q, q ∈ b → is_kill q = true ∨ (is_delete q = true ∧ q_shard q = s0 ∧ delete_req_ok P C c4 q = true)).
   { intros q Hq. destruct (batch_request_cases P C b q Hal Hq) as [Hk|(_ & c & qs & Hc & Hs & Hinq & Hg & _)]; [left; by apply (kills_are_kill C)|].
@@ -2715,7 +2737,7 @@ Qed.
 (** ** stage (d): the round in which the DELETE of the lost member is applied *)
 Theorem lost_stage_delete_applied s0 f0 x tt st st' plogs nticks o :
   StageE L s0 f0 x tt st → (∀ a, plogs a = true) → N.of_nat nticks * p_step P < p_ttl P →
-  (∀ s, is_Some (f_hist st !! s) → ∃ a, spare st a s) → o ≠ OCrash →
+  o ≠ OCrash →
   (∀ st4, pre_schedule P plogs nticks st = Some st4 → fresh_ok st4 (ESchedule o)) →
   healthy_round P plogs nticks o st = Some st' →
   ∃ b, o = OBatch b ∧ MendB st' ∧ (∀ a q, nonout st' a q → mharmless (f_hist st') a q) ∧
@@ -2725,9 +2747,7 @@ Theorem lost_stage_delete_applied s0 f0 x tt st st' plogs nticks o :
     (∀ s, s ≠ s0 → f_hist st' !! s = f_hist st !! s) ∧
     d_tick (f_db st') = d_tick (f_db st) + N.of_nat nticks * p_step P.
 Proof.
-  intros HA Hpl Httl Hsp Hnc Hfr Hr. destruct (se_b _ _ _ _ _ _ HA) as (HI & HP & Hoh).
-  assert (Hne : o ≠ OError).
-  { apply (round_no_error P st st' plogs nticks o HI); [|done|done|done]. intros a fh Ha. by destruct (ml_hosts _ _ _ HP a fh Ha). }
+  intros HA Hpl Httl Hnc Hfr Hr. destruct (se_b _ _ _ _ _ _ HA) as (HI & HP & Hoh).
   rewrite healthy_round_pre in Hr. destruct (pre_schedule P plogs nticks st) as [st4|] eqn:Epre; [|done].
   destruct (sd_pre s0 f0 x tt st plogs nticks st4 HA Hpl ltac:(lia) Epre) as
     (e0 & hs1 & Hh0 & Hh4 & Hf0e & Hoth4 & HX4 & HR4 & Hcur4 & Hstamp4 & Htick4 & Hsh4 & Hrun4 & Hkeys4 & Hdom4 & Hdbh4 & Hnoh4).
@@ -2735,13 +2755,24 @@ Proof.
   destruct (fstep P st4 (ESchedule o)) as [st5| |] eqn:E5; try done. injection Hr as <-.
   destruct HX4 as [(HI4 & HP4 & Hoh4) Hnc4].
   cbn [fstep] in E5. destruct (allowed P (ctx_of_db (f_db st4)) o) eqn:Hal; [|done].
-  destruct o as [b| |]; [|done|done]. exists b. split; [done|].
   set (C := ctx_of_db (f_db st4)) in *. pose proof (loopinv_ctx_wf st4 HI4) as Hwf. fold C in Hwf.
   set (t := d_tick (f_db st)) in *.
   (* the size of the membership Drummer sees *)
   destruct (se_mem _ _ _ _ _ _ HA) as (v & M & hs0 & Hh0' & Hxn & HszM & H3M & Hf0in).
   assert (Hsze : size e0.2 = S (size M)).
   { rewrite Hh0 in Hh0'. injection Hh0' as -> _. cbn [snd]. by apply map_size_insert_None. }
+  assert (Hnoadd : ∀ c, c ∈ entries C → repair_action P C c ≠ AAdd).
+  { intros c Hc. destruct (lostp_entry L P Ldec st4 t c HR4 Hc) as (h & sd & Hh & Hvc & _ & _ & _ & Hfl & Hw & _ & Hnone & Hadd). fold C in Hfl, Hw, Hnone, Hadd.
+    assert (Hnw : sr_wait P C c = []).
+    { destruct (sr_wait P C c) as [|nw lw] eqn:Ew; [done|]. exfalso. assert (Hnw : nw ∈ sr_wait P C c) by (rewrite Ew; left).
+      pose proof (Hw nw ltac:(left)) as Hz. apply elem_sr_wait in Hnw as [Hnw _]. apply elem_of_mvals in Hnw as [rid Hrid]. by apply (Hstamp4 _ c rid nw Hvc). }
+    destruct (sr_failed P C c) as [|nf l0] eqn:Ef; [by rewrite (Hnone Hnw eq_refl)|].
+    destruct (Hfl nf ltac:(left)) as [Hlf _]. destruct (se_single _ _ _ _ _ _ HA _ _ Hlf) as [Hs0 _].
+    destruct (Hadd Hnw ltac:(done)) as [_ Hdel']. rewrite Hdel'; [done|].
+    rewrite Hs0 in Hvc |- *. destruct (Hcur4 s0 _ c Hh0 Hvc) as [_ HM]. cbn [cur_members snd] in HM.
+    rewrite <- (map_size_fmap r_addr), HM, Hsze. unfold shard_size. rewrite Hsh4. unfold shard_size in HszM. lia. }
+  destruct o as [b| |]; [|exfalso; apply error_cause in Hal as (c & n & Hc & Ha & _); exact (Hnoadd c Hc Ha)|done].
+  exists b. split; [done|].
   (* what the batch consists of *)
   assert (Hkinds : ∀ q, q ∈ b → is_kill q = true ∨
             (is_delete q = true ∧ ∃ c, c ∈ entries C ∧ s_id c = q_shard q ∧ delete_req_ok P C c q = true ∧ s_id c = s0)).
@@ -2916,32 +2947,49 @@ Qed.
 
 
 (** * the chain: from a Lost state with a single lost member to Mend *)
-Lemma lost_detected_stagea plogs nticks s0 f0 :
+(* the hypotheses of the chain, per round of a run: the outcome is not OCrash, the ids drawn are fresh, and - as long
+   as the membership history of s0 has its initial length n0, i.e. until the replacement ADD is applied - every shard
+   has a spare NodeHost *)
+Fixpoint lost_hyps2 (plogs : N → bool) (nticks : nat) (s0 : N) (n0 : nat) (os : list outcome) (st : fstate) : Prop :=
+  match os with
+  | [] => True
+  | o :: os' =>
+    o ≠ OCrash ∧ (length (hist_of (f_hist st) s0) = n0 → ∀ s, is_Some (f_hist st !! s) → ∃ a, spare st a s) ∧
+    (∀ st4, pre_schedule P plogs nticks st = Some st4 → fresh_ok st4 (ESchedule o)) ∧
+    match healthy_round P plogs nticks o st with Some st' => lost_hyps2 plogs nticks s0 n0 os' st' | None => True end
+  end.
+
+Lemma lost_hyps_hyps2 plogs nticks s0 n0 os : ∀ st, lost_hyps P plogs nticks os st → lost_hyps2 plogs nticks s0 n0 os st.
+Proof.
+  induction os as [|o os IH]; intros st H; [done|]. cbn [lost_hyps lost_hyps2] in *. destruct H as (? & ? & ? & H).
+  split; [done|]. split; [done|]. split; [done|]. destruct (healthy_round P plogs nticks o st); [by apply IH|done].
+Qed.
+Lemma lost_detected_stagea plogs nticks s0 f0 n0 :
   (∀ a, plogs a = true) → N.of_nat nticks * p_step P < p_ttl P →
   ∀ os st st', os ≠ [] → Lost L st → (∀ s f, L s f → s = s0 ∧ f = f0) → L s0 f0 →
-  lost_hyps P plogs nticks os st →
+  length (hist_of (f_hist st) s0) = n0 → lost_hyps2 plogs nticks s0 n0 os st →
   p_ttl P < d_tick (f_db st) - mem_tick st s0 f0 + N.of_nat (length os) * (N.of_nat nticks * p_step P) →
   healthy_rounds P plogs nticks os st = Some st' →
   ∃ os1 os2 st2, os = os1 ++ os2 ∧ StageA L s0 f0 st2 ∧ p_ttl P < d_tick (f_db st2) - mem_tick st2 s0 f0 ∧
-    lost_hyps P plogs nticks os2 st2 ∧ healthy_rounds P plogs nticks os2 st2 = Some st' ∧
+    length (hist_of (f_hist st2) s0) = n0 ∧ lost_hyps2 plogs nticks s0 n0 os2 st2 ∧ healthy_rounds P plogs nticks os2 st2 = Some st' ∧
     (length os1 = 1%nat ∨
      N.of_nat (length os1 - 1) * (N.of_nat nticks * p_step P) + (d_tick (f_db st) - mem_tick st s0 f0) ≤ p_ttl P).
 Proof.
   intros Hpl Httl. set (delta := N.of_nat nticks * p_step P) in *.
-  induction os as [|o os IH]; intros st st' Hne HL Hsingle Hl0 Hhyp Hbound Hr; [done|].
-  cbn [lost_hyps] in Hhyp. destruct Hhyp as (Hnc & Hsp & Hfr & Hhyp').
+  induction os as [|o os IH]; intros st st' Hne HL Hsingle Hl0 Hn0 Hhyp Hbound Hr; [done|].
+  cbn [lost_hyps2] in Hhyp. destruct Hhyp as (Hnc & Hsp & Hfr & Hhyp'). specialize (Hsp Hn0).
   cbn [healthy_rounds] in Hr. destruct (healthy_round P plogs nticks o st) as [st1|] eqn:E1; [|done].
   pose proof (lost_mem_tick_le L Ldec st s0 f0 HL) as Hle0.
   destruct (decide (p_ttl P < d_tick (f_db st) + delta - mem_tick st s0 f0)) as [Hfail|Hwait].
   - destruct (lost_round_stagea s0 f0 st st1 plogs nticks o HL Hsingle Hl0 Hpl Httl Hsp Hnc Hfr Hfail E1) as (HA & Hhi & Htk & Hmt).
-    exists [o], os, st1. split; [done|]. split; [done|]. split; [rewrite Htk, Hmt; fold delta; lia|]. split; [done|]. split; [done|]. by left.
+    exists [o], os, st1. split; [done|]. split; [done|]. split; [rewrite Htk, Hmt; fold delta; lia|]. split; [by rewrite Hhi|]. split; [done|]. split; [done|]. by left.
   - assert (Hyoung : ∀ s f, L s f → d_tick (f_db st) + delta - mem_tick st s f ≤ p_ttl P).
     { intros s f Hlf. destruct (Hsingle s f Hlf) as [-> ->]. lia. }
     destruct (lost_round_wait L P Ldec st st1 plogs nticks o HL Hpl Httl Hsp Hnc Hfr E1 Hyoung) as (HL1 & Hhi1 & Htk1 & Hmt1).
     destruct os as [|o2 os2]; [cbn [length] in Hbound; lia|].
-    destruct (IH st1 st' ltac:(done) HL1 Hsingle Hl0 Hhyp') as (os1 & os3 & st2 & Hos & HA & Hov & Hh2 & Hr2 & Hb); [|done|].
+    destruct (IH st1 st' ltac:(done) HL1 Hsingle Hl0 ltac:(by rewrite Hhi1) Hhyp') as (os1 & os3 & st2 & Hos & HA & Hov & Hn2 & Hh2 & Hr2 & Hb); [|done|].
     { rewrite (Hmt1 s0 f0 Hl0), Htk1. fold delta. cbn [length] in Hbound |- *. lia. }
-    exists (o :: os1), os3, st2. split; [by rewrite Hos|]. split; [done|]. split; [done|]. split; [done|]. split; [done|].
+    exists (o :: os1), os3, st2. split; [by rewrite Hos|]. split; [done|]. split; [done|]. split; [done|]. split; [done|]. split; [done|].
     right. cbn [length]. rewrite Nat.sub_succ, Nat.sub_0_r. rewrite (Hmt1 s0 f0 Hl0), Htk1 in Hb. fold delta in Hb.
     destruct Hb as [->|Hb]; [change (N.of_nat 1) with 1; lia|]. destruct (length os1) as [|k]; [cbn [Nat.sub] in Hb; change (N.of_nat 0) with 0 in *; lia|].
     cbn [Nat.sub] in Hb. rewrite Nat.sub_0_r in Hb. rewrite Nat2N.inj_succ. nia.
@@ -2950,7 +2998,7 @@ Qed.
 Theorem lost_heal_single_failure plogs nticks s0 f0 os st st' :
   Lost L st → (∀ s f, L s f → s = s0 ∧ f = f0) → L s0 f0 →
   (∀ a, plogs a = true) → N.of_nat nticks * p_step P < p_ttl P → (0 < nticks)%nat → 0 < p_step P →
-  lost_hyps P plogs nticks os st →
+  lost_hyps2 plogs nticks s0 (length (hist_of (f_hist st) s0)) (take (detect_rounds P nticks + 5) os) st →
   (2 * detect_rounds P nticks + 10 ≤ length os)%nat →
   healthy_rounds P plogs nticks os st = Some st' →
   Mend st' ∧ healed P st' = true.
@@ -2959,36 +3007,69 @@ Proof.
   assert (Hdelta : 0 < delta) by (unfold delta; nia).
   assert (Hdet : N.of_nat (detect_rounds P nticks) = N.succ (p_ttl P / delta)).
   { unfold detect_rounds. fold delta. rewrite Nat2N.inj_succ, N2Nat.id. done. }
-  destruct (lost_detected_stagea plogs nticks s0 f0 Hpl Httl os st st') as (os1 & os2 & st2 & -> & HA & Hov & Hh2 & Hr2 & Hb); try done.
-  { intros ->. cbn in Hlen. lia. }
-  { fold delta. pose proof (N.mul_succ_div_gt (p_ttl P) delta ltac:(lia)) as Hgt.
-    assert (N.succ (p_ttl P / delta) ≤ N.of_nat (length os)) by lia. nia. }
+  set (K := (detect_rounds P nticks + 5)%nat) in *.
+  rewrite <- (take_drop K os), rounds_app in Hr.
+  destruct (healthy_rounds P plogs nticks (take K os) st) as [stK|] eqn:EK; [|done].
+  assert (HlenK : length (take K os) = K) by (rewrite take_length; lia).
+  destruct (lost_detected_stagea plogs nticks s0 f0 (length (hist_of (f_hist st) s0)) Hpl Httl (take K os) st stK) as (os1 & os2 & st2 & Hos & HA & Hov & Hn2 & Hh2 & Hr2 & Hb); try done.
+  { intros Hnil. rewrite Hnil in HlenK. cbn in HlenK. lia. }
+  { fold delta. rewrite HlenK. pose proof (N.mul_succ_div_gt (p_ttl P) delta ltac:(lia)) as Hgt.
+    assert (N.succ (p_ttl P / delta) ≤ N.of_nat K) by lia. nia. }
   assert (Hl1 : (length os1 ≤ detect_rounds P nticks)%nat).
   { destruct Hb as [->|Hb]; [unfold detect_rounds; lia|]. fold delta in Hb.
     assert (N.of_nat (length os1 - 1) ≤ p_ttl P / delta) by (apply N.div_le_lower_bound; [lia|nia]). lia. }
-  rewrite app_length in Hlen.
-  destruct os2 as [|oa [|ob [|oc [|od [|oe [|og os3]]]]]]; cbn [length] in Hlen; try lia.
+  rewrite Hos, app_length in HlenK.
+  destruct os2 as [|oa [|ob [|oc [|od [|oe os3]]]]]; cbn [length] in HlenK; try lia.
   assert (Hle : N.of_nat nticks * p_step P ≤ p_ttl P) by (fold delta; lia).
-  cbn [lost_hyps] in Hh2. cbn [healthy_rounds] in Hr2.
-  destruct Hh2 as (Hnca & Hspa & Hfra & Hh2).
+  cbn [lost_hyps2] in Hh2. cbn [healthy_rounds] in Hr2.
+  destruct Hh2 as (Hnca & Hspa & Hfra & Hh2). specialize (Hspa Hn2).
   destruct (healthy_round P plogs nticks oa st2) as [sta|] eqn:Ea; [|done].
   destruct (lost_stage_add_applied L P Ldec s0 f0 st2 sta plogs nticks oa HA Hpl Httl Hspa Hnca Hfra Ea) as (ba & _ & HB & Htka & _ & Hmta).
-  destruct Hh2 as (Hncb & Hspb & Hfrb & Hh2).
+  destruct Hh2 as (Hncb & _ & Hfrb & Hh2).
   destruct (healthy_round P plogs nticks ob sta) as [stb|] eqn:Eb; [|done].
-  destruct (lost_stage_join L P Ldec s0 f0 sta stb plogs nticks ob HB Hpl Httl Hspb Hncb Hfrb Eb) as (bb & x & t & _ & HC & _ & Htkb & Hmtb).
-  destruct Hh2 as (Hncc & Hspc & Hfrc & Hh2).
+  destruct (lost_stage_join L P Ldec s0 f0 sta stb plogs nticks ob HB Hpl Httl Hncb Hfrb Eb) as (bb & x & t & _ & HC & _ & Htkb & Hmtb).
+  destruct Hh2 as (Hncc & _ & Hfrc & Hh2).
   destruct (healthy_round P plogs nticks oc stb) as [stc|] eqn:Ec; [|done].
-  destruct (lost_stage_join_started L P Ldec s0 f0 x t stb stc plogs nticks oc HC Hpl Httl Hspc Hncc Hfrc Ec) as (bc & _ & HD & _ & Htkc & Hmtc).
-  destruct Hh2 as (Hncd & Hspd & Hfrd & Hh2).
+  destruct (lost_stage_join_started L P Ldec s0 f0 x t stb stc plogs nticks oc HC Hpl Httl Hncc Hfrc Ec) as (bc & _ & HD & _ & Htkc & Hmtc).
+  destruct Hh2 as (Hncd & _ & Hfrd & Hh2).
   destruct (healthy_round P plogs nticks od stc) as [std|] eqn:Ed; [|done].
   assert (Hovd : p_ttl P < d_tick (f_db stc) - mem_tick stc s0 f0) by (rewrite Hmtc, Hmtb, Hmta, Htkc, Htkb, Htka; fold delta; lia).
-  destruct (lost_stage_delete L P Ldec s0 f0 x t stc std plogs nticks od HD Hpl Httl Hspd Hncd Hfrd Hovd Ed) as (bd & _ & HE & _ & Htkd).
-  destruct Hh2 as (Hnce & Hspe & Hfre & Hh2).
+  destruct (lost_stage_delete L P Ldec s0 f0 x t stc std plogs nticks od HD Hpl Httl Hncd Hfrd Hovd Ed) as (bd & _ & HE & _ & Htkd).
+  destruct Hh2 as (Hnce & _ & Hfre & Hh2).
   destruct (healthy_round P plogs nticks oe std) as [ste|] eqn:Ee; [|done].
-  destruct (lost_stage_delete_applied s0 f0 x t std ste plogs nticks oe HE Hpl Httl Hspe Hnce Hfre Ee) as (be & _ & HMB & Hinert & _).
+  destruct (lost_stage_delete_applied s0 f0 x t std ste plogs nticks oe HE Hpl Httl Hnce Hfre Ee) as (be & _ & HMB & Hinert & _).
+  (* the rest of the run, from a state of MendB in which every pending request is a leftover *)
+  assert (Hrest : healthy_rounds P plogs nticks (os3 ++ drop K os) ste = Some st') by (by rewrite rounds_app, Hr2).
+  assert (Hlrest : (detect_rounds P nticks + 5 ≤ length (os3 ++ drop K os))%nat) by (rewrite app_length, drop_length; lia).
+  destruct (os3 ++ drop K os) as [|og rest]; [cbn in Hlrest; lia|]. cbn [healthy_rounds] in Hrest. cbn [length] in Hlrest.
   destruct (healthy_round P plogs nticks og ste) as [stg|] eqn:Eg; [|done].
   destruct (mendb_inert_round P ste stg plogs nticks og HMB Hinert Hpl Hle Eg) as (bg & _ & _ & HMg).
-  apply (mend_heal_ge P plogs nticks Hpl Hle os3 stg st' HMg Hnt Hstep); [lia|done].
+  apply (mend_heal_ge P plogs nticks Hpl Hle rest stg st' HMg Hnt Hstep); [lia|done].
 Qed.
 
 End StageDel.
+
+(** * the hypotheses of the chain are decidable on a concrete run *)
+Fixpoint lost_hyps2b (P : params) (plogs : N → bool) (nticks : nat) (s0 : N) (n0 : nat) (os : list outcome) (st : fstate) : bool :=
+  match os with
+  | [] => true
+  | o :: os' =>
+    match o with OCrash => false | _ => true end
+    && (negb (length (hist_of (f_hist st) s0) =? n0)%nat
+        || forallb (λ sh : N * list hentry, existsb (λ ah : N * fhost, spareb st ah.1 sh.1) (map_to_list (f_hosts st))) (map_to_list (f_hist st)))
+    && match pre_schedule P plogs nticks st with Some st4 => fresh_okb st4 (ESchedule o) | None => true end
+    && match healthy_round P plogs nticks o st with Some st' => lost_hyps2b P plogs nticks s0 n0 os' st' | None => true end
+  end.
+
+Lemma lost_hyps2b_sound P plogs nticks s0 n0 os : ∀ st, lost_hyps2b P plogs nticks s0 n0 os st = true → lost_hyps2 P plogs nticks s0 n0 os st.
+Proof.
+  induction os as [|o os IH]; intros st H; cbn [lost_hyps2]; [done|]. cbn [lost_hyps2b] in H.
+  apply andb_true_iff in H as [H Hrec]. apply andb_true_iff in H as [H Hfr]. apply andb_true_iff in H as [Hnc Hsp].
+  split; [by destruct o|]. split; [|split].
+  - intros Hn0 s [h Hh]. apply orb_true_iff in Hsp as [Hsp|Hsp]; [apply negb_true_iff, Nat.eqb_neq in Hsp; done|].
+    pose proof (forallb_map_to_list _ _ Hsp s h Hh) as Hx. cbn [fst] in Hx. apply existsb_exists in Hx as ([a fh] & _ & Hx).
+    exists a. by apply spareb_sound.
+  - intros st4 E. rewrite E in Hfr. by apply fresh_okb_sound.
+  - destruct (healthy_round P plogs nticks o st); [by apply IH|done].
+Qed.
+
